@@ -43,7 +43,7 @@ def shrink_case(case, fails, setkeys=("X", "Y", "Z", "L", "S", "I", "R", "x", "y
                 optional_sets=("Z", "L", "S", "I"), max_rounds=200):
     """greedy shrink while `fails(case)` stays true"""
     cur = copy.deepcopy(case)
-    for k in ("layers", "cls", "fam"):
+    for k in ("layers", "cls", "fam", "names"):
         if k in cur:
             c = copy.deepcopy(cur)
             del c[k]
